@@ -46,7 +46,7 @@ def build(sc, workdir, env=None, budget=None):
     if planner_kind == 'batch':
         plan = DelayedBatchPlanning(batch_literal(), delay_model=dm, delays=delays)
     else:
-        plan = DelayedListPlanning('list', delay_model=dm, choice=choice, delays=delays)
+        plan = DelayedListPlanning('list', delay_model=dm, choice=choice, delays=delays, abs_est=sc.get('abs_est'))
     if kind == 'batch':
         split = None
         if a.get('split'):
@@ -73,20 +73,29 @@ def quiet():
         yield
 
 
-def run_scenario(sc, pause=None, keep=False, every_event=None, runtime=None):
-    """pause: None -> start();  [k, u1, u2, ...] -> start(runtime=k) then resume(until=u_i)...
-    runtime: int -> start(runtime=runtime)"""
+def prepare(sc):
+    """build the real Simulation (files in a scratch directory) and its Trace, without running it"""
     d = tempfile.mkdtemp(prefix='vt_')
+    budget = step_budget(sc)
     try:
-        budget = step_budget(sc)
         with quiet():
             sim, env = build(sc, d, budget=budget)
-        tr = T.Trace(sc, sim, env)
+    except BaseException:
+        shutil.rmtree(d, ignore_errors=True)
+        raise
+    tr = T.Trace(sc, sim, env)
+    tr.workdir = d
+    tr.budget = budget
+    return tr
+
+
+def execute(tr, pause=None, keep=False, every_event=None, runtime=None):
+    sc, sim, env, d = tr.sc, tr.sim, tr.env, tr.workdir
+    try:
         tr.check_every_event = every_event
         tr.snaps[0] = tr.snapshot()
         T.wrap_algorithm(tr, sim.scheduler.algorithm)
         T.CURRENT = tr
-        tr.budget = budget
         try:
             with quiet():
                 if pause:
@@ -131,3 +140,33 @@ def run_scenario(sc, pause=None, keep=False, every_event=None, runtime=None):
         T.CURRENT = None
         if not keep:
             shutil.rmtree(d, ignore_errors=True)
+
+
+def run_scenario(sc, pause=None, keep=False, every_event=None, runtime=None):
+    """pause: None -> start();  [k, u1, u2, ...] -> start(runtime=k) then resume(until=u_i)...
+    runtime: int -> start(runtime=runtime)"""
+    return execute(prepare(sc), pause=pause, keep=keep, every_event=every_event, runtime=runtime)
+
+
+def run_pair(sc_a, sc_b, order='seq'):
+    """two simulations in one interpreter.  'seq': build A, run A, build B, run B;  'built_first': both are built before
+    either runs (A runs first);  'built_first_rev': both built, B runs first"""
+    if order == 'seq':
+        return run_scenario(sc_a), run_scenario(sc_b)
+    ta = prepare(sc_a)
+    try:
+        tb = prepare(sc_b)
+    except BaseException:
+        shutil.rmtree(ta.workdir, ignore_errors=True)
+        raise
+    if order == 'built_first':
+        try:
+            execute(ta)
+        finally:
+            execute(tb)
+    else:
+        try:
+            execute(tb)
+        finally:
+            execute(ta)
+    return ta, tb
